@@ -47,6 +47,8 @@ const RANGE_ALPHA: &[&[u8]] = &[b"bytes", b"=", b"-", b",", b" ", b"/", b"0", b"
 const B64_ALPHA: &[&[u8]] = &[b"A", b"Z", b"a", b"0", b"+", b"/", b"=", b"-", b"_", b" ", b"\n", b"\0", b"\xc3\xa9", b"\xc5\x81", b"\xff"];
 const CFG_ALPHA: &[&[u8]] = &[b"ip", b"port", b"=", b"[", b"]", b"cors", b"#", b"\"", b"'", b" ", b"\n", b"1", b"a", b"_", b"-", b"\0", b"\xff"];
 const PATH_ALPHA: &[&[u8]] = &[b"/", b"[[", b"]]", b"[", b"]", b"a", b"b", b"?", b"#", b"=", b"&", b" ", b"\0", b"\xc3\xa9", b"\xff"];
+const QUERY_ALPHA: &[&[u8]] = &[b"%", b"a", b"2", b"5", b"6", b"&", b"=", b"+", b"?", b"#", b" ", b"\xc3\xa9", b"\xe2\x82\xac", b"\xf0\x9f\x98\x80", b"\0", b"\xff"];
+const QUERY_SEEDS: &[&[u8]] = &[b"key%26%3D%21%40=%25val%2Aue%25&key=value", b"a=1&b=%20x&c", b"name=50%25&q=%E2%82%AC"];
 const HDR_ALPHA: &[&[u8]] = &[b"a", b":", b": ", b" ", b";", b"=", b"\"", b"form-data", b"name", b"filename", b"attachment", b"\r\n", b"\0", b"\xc3\xa9", b"\xff"];
 
 const JSON_OBJ_SEEDS: &[&[u8]] = &[
@@ -60,7 +62,7 @@ const RESP_SEEDS: &[&[u8]] = &[
     b"HTTP/1.1 200 OK\r\nHost: localhost\r\nContent-Type: text/plain\r\nContent-Range: bytes 0-3/4\r\nContent-Length: 4\r\n\r\nbody",
     b"HTTP/1.1 206 Partial Content\r\nContent-Type: multipart/byteranges; boundary=String_separator\r\n\r\n--String_separator\r\nContent-Type: text/plain\r\nContent-Range: bytes 0-2/100\r\n\r\none\r\n--String_separator\r\nContent-Type: image/png\r\nContent-Range: bytes 10-12/100\r\n\r\ntwo\r\n--String_separator",
 ];
-const MP_SEEDS: &[&[u8]] = &[b"--b\r\nContent-Disposition: form-data; name=\"f\"\r\n\r\nvalue\r\n--b\r\nContent-Disposition: form-data; name=\"g\"; filename=\"g.txt\"\r\nContent-Type: text/plain\r\n\r\nsecond\r\n--b--\r\n"];
+const MP_SEEDS: &[&[u8]] = &[b"--b\nContent-Disposition: form-data; name=\"f\"\n\n\n--b--\n", b"--b\nContent-Disposition: form-data; name=\"f\"\n\nv\n--b\nContent-Disposition: form-data; name=\"g\"\n\n\n--b--\n", b"--b\r\nContent-Disposition: form-data; name=\"f\"\r\n\r\n\r\n--b--\r\n", b"--b\r\nContent-Disposition: form-data; name=\"f\"\r\n\r\nvalue\r\n--b\r\nContent-Disposition: form-data; name=\"g\"; filename=\"g.txt\"\r\nContent-Type: text/plain\r\n\r\nsecond\r\n--b--\r\n"];
 const RANGE_SEEDS: &[&[u8]] = &[b"bytes=0-1, 4-5, -2, 7-", b"bytes=0-"];
 const CR_SEEDS: &[&[u8]] = &[b"bytes 0-3/4", b"bytes 10-12/100"];
 const B64_SEEDS: &[&[u8]] = &[b"Zm9vYmFy", b"Zm9vYg==", b"Zm8="];
@@ -92,8 +94,11 @@ pub fn targets() -> Vec<Target> {
         Target { name: "JSONProperty::parse", alphabet: JSON_ALPHA, seeds: &[b"\"key\": \"value\"", b"\"n\": -1.5e3", b"\"a\": [1,2]", b"\"o\": {\"x\": 1}", b"\"z\": null"], nest: None, call: |b| { let _ = JSONProperty::parse(&s(b)); } },
         Target { name: "Base64::decode", alphabet: B64_ALPHA, seeds: B64_SEEDS, nest: None, call: |b| { let _ = Base64::decode(s(b)); } },
         Target { name: "FormMultipartData::parse(boundary b)", alphabet: MP_ALPHA, seeds: MP_SEEDS, nest: None, call: |b| { let _ = FormMultipartData::parse(b, "b".to_string()); } },
-        Target { name: "FormMultipartData::parse(boundary from the data)", alphabet: MP_ALPHA, seeds: &[b"--", b"---", b"", b"-", b"b-", b"a-b", b"\xc3\xa9"], nest: None, call: |b| { let _ = FormMultipartData::parse(MP_SEEDS[0], s(b)); let _ = FormMultipartData::parse(b, s(b)); } },
-        Target { name: "FormMultipartData::extract_boundary", alphabet: HDR_ALPHA, seeds: &[b"multipart/form-data; boundary=----WebKitFormBoundaryX"], nest: None, call: |b| { if let Ok(bd) = FormMultipartData::extract_boundary(&s(b)) { let _ = FormMultipartData::parse(MP_SEEDS[0], bd); } } },
+        Target { name: "FormMultipartData::parse(boundary from the data)", alphabet: MP_ALPHA, seeds: &[b"--", b"---", b"", b"-", b"b-", b"a-b", b"\xc3\xa9"], nest: None, call: |b| { let _ = FormMultipartData::parse(MP_SEEDS[3], s(b)); let _ = FormMultipartData::parse(b, s(b)); } },
+        Target { name: "FormMultipartData::extract_boundary", alphabet: HDR_ALPHA, seeds: &[b"multipart/form-data; boundary=----WebKitFormBoundaryX"], nest: None, call: |b| { if let Ok(bd) = FormMultipartData::extract_boundary(&s(b)) { let _ = FormMultipartData::parse(MP_SEEDS[3], bd); } } },
+        Target { name: "URL::parse_query", alphabet: QUERY_ALPHA, seeds: QUERY_SEEDS, nest: None, call: |b| { let _ = crate::url::URL::parse_query(&s(b)); let _ = crate::url::URL::percent_decode(&s(b)); } },
+        Target { name: "FormUrlEncoded::parse", alphabet: QUERY_ALPHA, seeds: QUERY_SEEDS, nest: None, call: |b| { let _ = crate::body::form_urlencoded::FormUrlEncoded::parse(b.to_vec()); } },
+        Target { name: "Request::get_uri_query", alphabet: QUERY_ALPHA, seeds: QUERY_SEEDS, nest: None, call: |b| { let r = Request { method: "GET".into(), request_uri: format!("/p?{}", s(b)), http_version: "HTTP/1.1".into(), headers: vec![], body: vec![] }; let _ = r.get_uri_query(); let _ = r.get_uri_path(); } },
         Target { name: "Request::parse", alphabet: HTTP_ALPHA, seeds: REQ_SEEDS, nest: None, call: |b| { let _ = Request::parse(b); } },
         Target { name: "Response::parse", alphabet: HTTP_ALPHA, seeds: RESP_SEEDS, nest: None, call: |b| { let _ = Response::parse(b); } },
         Target { name: "Header::parse_header", alphabet: HDR_ALPHA, seeds: HDR_SEEDS, nest: None, call: |b| { let _ = Header::parse_header(&s(b)); } },
@@ -118,6 +123,10 @@ pub const REPEATS: &[(&str, &[u8], &[u8], &[u8])] = &[
     ("Response::parse", b"HTTP/1.1 206 Partial Content\r\nContent-Type: multipart/byteranges; boundary=String_separator\r\n\r\n", b"--String_separator\r\nContent-Type: text/plain\r\nContent-Range: bytes 0-0/100\r\n\r\nx\r\n", b"--String_separator"),
     ("Range::parse_multipart_body", b"", b"--String_separator\r\nContent-Type: text/plain\r\nContent-Range: bytes 0-0/100\r\n\r\nx\r\n", b"--String_separator"),
     ("Request::parse", b"GET / HTTP/1.1\r\n", b"a: b\r\n", b"\r\n"),
+    ("Response::parse", b"", b"HTTP/1.1 100 Continue\r\n\r\n", b"HTTP/1.1 200 OK\r\nContent-Length: 4\r\n\r\nbody"),
+    ("Response::parse", b"", b"HTTP/1.1 103 Early Hints\r\nLink: </s.css>\r\n\r\n", b"HTTP/1.1 200 OK\r\n\r\n"),
+    ("Request::parse", b"", b"GET / HTTP/1.1\r\n\r\n", b""),
+    ("URL::parse_query", b"", b"a=%25&", b"z=1"),
     ("FormMultipartData::parse(boundary b)", b"b\n", b"a: b\n\nv\nb\n", b""),
     ("RawUnprocessedJSONArray::split_into_vector_of_strings", b"[", b"1,", b"1]"),
     ("JSONArrayOfObjects::from_json", b"[", b"{\"name\": \"n\", \"num\": 1},", b"{\"name\": \"n\", \"num\": 1}]"),
